@@ -349,6 +349,103 @@ func handoff() string {
 	return fmt.Sprint(v)
 }
 
+// onceValueBlocking: several goroutines call a sync.OnceValue whose function blocks on a
+// channel; the callers that lose must wait for the winner (and must not block the scheduler
+// on the standard library's own mutex while it is parked).
+func onceValueBlocking() string {
+	gate := make(chan struct{})
+	calls := int32(0)
+	get := sync.OnceValue(func() int {
+		atomic.AddInt32(&calls, 1)
+		<-gate
+		return 7
+	})
+	stop := sync.OnceFunc(func() { close(gate) })
+	pair := sync.OnceValues(func() (string, error) { return "p", nil })
+	var wg sync.WaitGroup
+	sum := int32(0)
+	for i := 0; i < 4; i++ {
+		wg.Add(1)
+		go func() {
+			defer wg.Done()
+			atomic.AddInt32(&sum, int32(get()))
+		}()
+	}
+	time.Sleep(time.Millisecond)
+	stop()
+	stop()
+	wg.Wait()
+	a, err := pair()
+	return fmt.Sprint(atomic.LoadInt32(&sum), atomic.LoadInt32(&calls), a, err)
+}
+
+type pooled struct{ buf []byte }
+
+var constructPool = sync.Pool{New: func() any { return &pooled{buf: make([]byte, 0, 16)} }}
+
+// poolAndSyncMap: a package-level sync.Pool handing buffers between goroutines (each writes
+// without further synchronisation: Put happens-before the Get that returns the item) and a
+// sync.Map used as a registry with LoadOrStore / CompareAndDelete.
+func poolAndSyncMap() string {
+	var reg sync.Map
+	var wg sync.WaitGroup
+	var total atomic.Int64
+	for i := 0; i < 6; i++ {
+		wg.Add(1)
+		go func(i int) {
+			defer wg.Done()
+			b := constructPool.Get().(*pooled)
+			b.buf = append(b.buf[:0], byte(i), byte(i))
+			total.Add(int64(len(b.buf)))
+			constructPool.Put(b)
+			me := &pooled{}
+			if _, loaded := reg.LoadOrStore(i%3, me); !loaded {
+				reg.CompareAndDelete(i%3, me)
+			}
+		}(i)
+	}
+	wg.Wait()
+	left := 0
+	reg.Range(func(k, v any) bool { left++; return true })
+	return fmt.Sprint(total.Load(), left <= 3)
+}
+
+// contextAfterFunc: callbacks run by package context on goroutines of its own
+// (context.AfterFunc, cancellation with a cause, a timeout with a cause), synchronising with
+// the caller through a mutex and a channel.
+func contextAfterFunc() string {
+	root, cancel := context.WithCancelCause(context.Background())
+	var mu sync.Mutex
+	fired := 0
+	done := make(chan struct{})
+	stopA := context.AfterFunc(root, func() {
+		mu.Lock()
+		fired++
+		mu.Unlock()
+		close(done)
+	})
+	stopB := context.AfterFunc(root, func() {
+		mu.Lock()
+		fired += 100
+		mu.Unlock()
+	})
+	wasPending := stopB() // unregistered before the cancellation: must never run
+	try, cancelTry := context.WithTimeoutCause(root, 20*time.Millisecond, errTryOver)
+	defer cancelTry()
+	<-try.Done()
+	cause1 := context.Cause(try)
+	cancel(errShutdown)
+	<-done
+	mu.Lock()
+	defer mu.Unlock()
+	return fmt.Sprint(fired, wasPending, stopA(), cause1, context.Cause(root), root.Err())
+}
+
+var (
+	errTryOver  = fmt.Errorf("try over")
+	errShutdown = fmt.Errorf("shutdown")
+)
+
 // Cases lists every self-test program with its schedule-independent result.
 var Cases = []Case{
 	{"mutexCounter", mutexCounter, "30"},
@@ -365,4 +462,7 @@ var Cases = []Case{
 	{"goWithArgs", goWithArgs, "1a0,2b2,3c3"},
 	{"terminatingSelect", terminatingSelect, "5"},
 	{"handoff", handoff, "99"},
+	{"onceValueBlocking", onceValueBlocking, "28 1p<nil>"},
+	{"poolAndSyncMap", poolAndSyncMap, "12 true"},
+	{"contextAfterFunc", contextAfterFunc, "1 true false try over shutdown context canceled"},
 }
